@@ -40,8 +40,15 @@ fn slice_ranges(
         );
     }
 
-    // Per spec: "If axes are omitted, they are set to [0, ..., r-1]"
-    let n_axes = axes.map(|x| x.len()).unwrap_or(input_shape.len());
+    // If axes are omitted, `starts` and `ends` apply to the leading axes.
+    // Slice-1 specifies `[0, ..., len(starts) - 1]`. Later versions specify
+    // `[0, ..., r-1]`, which is the same when `starts` has an entry for every
+    // dimension.
+    let n_axes = axes.map(|x| x.len()).unwrap_or(starts.len());
+    check_input!(
+        n_axes <= input_shape.len(),
+        "`starts` length must be <= input rank"
+    );
 
     check_input!(
         starts.len() == n_axes,
